@@ -67,6 +67,21 @@ Qed.
 Print Assumptions C02_ptyn_frame.
 
 (* type 2: only the buffer of the group's own flag, see C08 (rt_step) *)
+(* ALL FOUR TEXTS, EVERY GROUP, IN ONE FORMULA.  For every state satisfying the invariant, every group
+   and each of PS, RT-A, RT-B, PTYN: the cells after the call are spec_cells g s sl —
+     the cells before, if the group is a type-2 group ignored as a possible flip of the A/B flag;
+     otherwise the group's writes_of (the (buffer, cell, byte, carrying-block error) list: type 0: two
+     PS cells 2s, 2s+1 from D; 2A: four RT cells 4s..4s+3 from C and D, 2B: two from D, in the buffer
+     of the group's flag; 10A: four PTYN cells; nothing for any other group) applied with cell_after
+     to the cells before, or to the emptied buffer when the group switches the A/B flag of a
+     non-empty buffer.
+   So a cell that is not addressed is never touched, whatever the group, and an addressed cell
+   depends only on its old content, the two bytes' block and the settings of its own text. *)
+Theorem C02_every_text_every_group : forall conv lut g s, Inv conv s -> wf_group g ->
+  forall sl, cells (get_text sl (fst (process conv lut g s))) = spec_cells conv g s sl.
+Proof. exact texts_step. Qed.
+Print Assumptions C02_every_text_every_group.
+
 (* THE OBSERVER: the boolean function obs_C02 that the check evaluates on the library's traces
    (no cell of any text changes other than the addressed ones — except the emptying of the selected
    RT buffer by a type-2 group with error-free B — and every error-free addressed reception is
